@@ -15,6 +15,20 @@ theorem default_not_return : (default : CNode).node.isReturn = false := rfl
 
 theorem returnJump_not_return (m : CNode) (t : RawTok) : (returnJump m t).isReturn = false := rfl
 
+/-- **C09 (`rewireReturn_keeps_locations`).** Rewiring an additional return to the function's exit
+    changes no node's location: the jump that replaces the return carries the return's own raw
+    token, every other node is untouched. -/
+theorem rewireReturn_keeps_locations (g : Cfg) (i r k : Nat) :
+    ((rewireReturn g i r).get k).node.tok = (g.get k).node.tok := by
+  unfold rewireReturn
+  rw [Cfg.get_modify, Cfg.size_modify]
+  split
+  · simp only []
+    rw [Cfg.get_modify]
+    split <;> rfl
+  · rw [Cfg.get_modify]
+    split <;> rfl
+
 /-- edges and instruction kinds after rewiring the additional return `i` to the exit `r` -/
 theorem rewire_get (g : Cfg) (i r : Nat) (hir : i ≠ r) (hi : i < g.nodes.size) (hr : r < g.nodes.size)
     (y : Nat) :
